@@ -73,6 +73,9 @@ type Exec struct {
 	epochHeap                     map[string]Term
 	snapRefs                      map[string]bool
 	snapOrigins                   map[string]snapOrigin
+	keepPrivate                   bool
+	livePriv                      []PtrV
+	privCache                     map[*ssa.Alloc]bool
 	havocked                      bool
 	sigs                          map[string]SpecSig
 	specFiles                     []string
